@@ -820,6 +820,44 @@ def r01_11(ctx, rep):
     module_state_free(ctx, rep, "R01.11", PARSER, "the parser module (parse() and the cache helpers)")
 
 
+def once_per_process_key(ctx, rep, R):
+    """the `checked once per process` memo of parse(): what is tested against it and what is added to it is the database that was
+    connected to (the first argument of sqlite3.connect), the same expression at every site"""
+    fn = ctx.func(PARSER, "parse", R)
+    site = PARSER + ":parse"
+    conn_args = {norm(c.args[0]) for c in ast.walk(fn) if isinstance(c, ast.Call) and (norm(c.func).endswith("sqlite3.connect") or norm(c.func) == "connect") and c.args}
+    memo = None
+    keys = []
+    for n in ast.walk(fn):
+        if isinstance(n, ast.Compare) and len(n.ops) == 1 and isinstance(n.ops[0], (ast.In, ast.NotIn)) and isinstance(n.comparators[0], ast.Attribute) \
+                and norm(n.comparators[0].value) == fn.name:
+            memo = n.comparators[0].attr
+            keys.append(("tested", norm(n.left)))
+    if memo is None:
+        rep.note("%s parse() keeps no once-per-process memo: nothing to key" % R)
+        return
+    for n in ast.walk(fn):
+        if isinstance(n, ast.Call) and isinstance(n.func, ast.Attribute) and n.func.attr in ("add", "update") and norm(n.func.value) == "%s.%s" % (fn.name, memo) and n.args:
+            keys.append(("added", norm(n.args[0])))
+        if isinstance(n, ast.Assign) and norm(n.targets[0]) == "%s.%s" % (fn.name, memo) and isinstance(n.value, (ast.Set, ast.List, ast.Tuple)):
+            for e in n.value.elts:
+                keys.append(("initialised with", norm(e)))
+    distinct = {k for _w, k in keys}
+    rep.ob(R, site, "the once-per-process memo is keyed by the database connected to", len(distinct) == 1 and distinct <= conn_args and len(keys) >= 3,
+           "parse.%s is %s while the connection is opened on %s: a second database in the same folder (another cache_db name) or the same name in "
+           "another folder is taken as already checked — its integrity and layout check and the table creation are skipped and the first query fails"
+           % (memo, ", ".join("%s %s" % k for k in keys), sorted(conn_args)))
+
+
+@SPEC.rule(
+    "R01.12",
+    "the health check is skipped only for the database that was checked: the memo of already initialised databases is tested with, "
+    "and filled with, the path handed to sqlite3.connect — not its folder, not its file name",
+)
+def r01_12(ctx, rep):
+    once_per_process_key(ctx, rep, "R01.12")
+
+
 from ._mut import (  # noqa: E402
     delete_stmt_where,
     replace_const_str,
@@ -956,3 +994,17 @@ def _m_eof(mod):
         return False
 
     return mod if replace_in_func(mod, "_parse", edit) else None
+
+
+@SPEC.mutant("initialised databases remembered by folder", PARSER, "R01.12", "memo is keyed")
+def _m_memo_folder(mod):
+    def edit(fn):
+        hit = False
+        for n in ast.walk(fn):
+            if isinstance(n, ast.Compare) and "initialized_dbs" in norm(n) and isinstance(n.left, ast.Name):
+                n.left = ast.Name(id="db_folder", ctx=ast.Load())
+                hit = True
+        return hit
+
+    from ._mut import replace_in_func as _r
+    return mod if _r(mod, "parse", edit) else None
